@@ -279,6 +279,62 @@ def compile_cases(cases, render, opts=None, chunk=1500):
     return out, errs
 
 
+def shrink_tree(sheet, fails, max_evals=1500):
+    """Greedy shrinking of a JSON item tree (list of items; an item with a body has key 'b').
+    `fails(sheet) -> bool` re-runs the failing comparison.  Tries: delete an item, hoist a body in
+    place of its block.  Returns the smallest failing sheet found."""
+    import copy
+    evals = [0]
+
+    def paths(items, prefix=()):
+        for i, it in enumerate(items):
+            yield prefix + (i,)
+            if isinstance(it, dict) and 'b' in it:
+                for p in paths(it['b'], prefix + (i,)):
+                    yield p
+
+    def get_parent(root, path):
+        items = root
+        for i in path[:-1]:
+            items = items[i]['b']
+        return items
+
+    cur = copy.deepcopy(sheet)
+    progress = True
+    while progress and evals[0] < max_evals:
+        progress = False
+        for path in sorted(paths(cur), key=lambda p: (-len(p), p)):
+            if evals[0] >= max_evals:
+                break
+            for mode in ('delete', 'hoist'):
+                cand = copy.deepcopy(cur)
+                try:
+                    parent = get_parent(cand, path)
+                    it = parent[path[-1]]
+                except (IndexError, KeyError, TypeError):
+                    break
+                if mode == 'delete':
+                    del parent[path[-1]]
+                else:
+                    if not (isinstance(it, dict) and 'b' in it and len(path) > 1):
+                        continue
+                    parent[path[-1]:path[-1] + 1] = it['b']
+                if not cand:
+                    continue
+                evals[0] += 1
+                try:
+                    bad = fails(cand)
+                except Exception:
+                    bad = False
+                if bad:
+                    cur = cand
+                    progress = True
+                    break
+            if progress:
+                break
+    return cur
+
+
 def replay_known(chk, prop, opts=None):
     """Replay every open known finding of `prop` verbatim against the real code: still failing -> KNOWN-FINDING line."""
     for f in known_findings(prop):
